@@ -259,6 +259,17 @@ func e2eSyncer(in []byte) (interface{}, error) {
 	conf.Options.Id = "verif"
 	node := &slot.SyncNode{Id: 0, Source: cfg.Src, SourcePassword: "src-SECRET-pw", Target: []string{cfg.Tgt}, TargetPassword: "tgt-SECRET-pw", SlotLeftBoundary: -1, SlotRightBoundary: -1}
 	ds := dbSync.NewDbSyncer(node, 9320, semaphore.NewWeighted(2))
+	// never outlive the check: a syncer left behind would re-dial its vanished source once per second for ever
+	parent := os.Getppid()
+	go func() {
+		limit := time.Now().Add(time.Duration(cfg.BudgetMs+30000) * time.Millisecond)
+		for {
+			time.Sleep(200 * time.Millisecond)
+			if os.Getppid() != parent || time.Now().After(limit) {
+				os.Exit(3)
+			}
+		}
+	}()
 	// the tool's "panic = exit(1)" is kept as it is in production: the abort hook is removed
 	uninstallAbortHook()
 	ds.Sync()
